@@ -153,9 +153,13 @@ def compare(p, sv, rv):
                 got = (rv.get("msg") or "")
                 if not got.endswith("：" + sr["msg"]) and got != sr["msg"]:
                     ms.append(("error-message", "uncaught exception message: spec %r, interpreter %r" % (sr["msg"], got)))
-            if not sr["arity"]:
-                want = [line(pth) for pth in sr["chain"]]
-                got = rv.get("chain") or []
+            want = [line(pth) for pth in sr["chain"]]
+            got = rv.get("chain") or []
+            if sr["arity"]:
+                # fault while binding a call: an extra innermost entry for the half-made call is tolerated
+                if got != want and got[:-1] != want:
+                    ms.append(("error-chain", "fault line/call chain: spec %s (+ optional entry of the failed call), interpreter %s" % (want, got)))
+            else:
                 if want != got:
                     ms.append(("error-chain", "fault line/call chain: spec %s, interpreter %s" % (want, got)))
     return ms
